@@ -172,10 +172,14 @@ type computerFunc = func(*ComputedStyle, pr.KnownProp, pr.CssProperty) pr.CssPro
 
 // backgroundImage computes lenghts in gradient background-image.
 func backgroundImage(computer *ComputedStyle, _ pr.KnownProp, _value pr.CssProperty) pr.CssProperty {
-	value := _value.(pr.Images)
+	// work on copies: the cascaded value is shared between the elements it
+	// applies to and, for initial values and user agent stylesheets, between
+	// documents (possibly rendered concurrently)
+	value := append(pr.Images(nil), _value.(pr.Images)...)
 	for i, image := range value {
 		switch gradient := image.(type) {
 		case pr.LinearGradient:
+			gradient.ColorStops = append(pr.ColorsStops(nil), gradient.ColorStops...)
 			for j, cl := range gradient.ColorStops {
 				if !cl.Position.IsNone() {
 					cl.Position = length_(computer, pr.DimOrS{Dimension: cl.Position}, -1, false).Dimension
@@ -184,6 +188,7 @@ func backgroundImage(computer *ComputedStyle, _ pr.KnownProp, _value pr.CssPrope
 			}
 			image = gradient
 		case pr.RadialGradient:
+			gradient.ColorStops = append(pr.ColorsStops(nil), gradient.ColorStops...)
 			for j, cl := range gradient.ColorStops {
 				if !cl.Position.IsNone() {
 					cl.Position = length_(computer, pr.DimOrS{Dimension: cl.Position}, -1, false).Dimension
